@@ -1,0 +1,111 @@
+//go:build verif
+
+package client
+
+// Contracts for deductive verification (read by /verif/govc). This file holds
+// comments only: it cannot change behaviour with the build tag on or off.
+
+//@ guarded_by clientQs.sendMu: sendq
+//@ guarded_by clientQs.pendMu: pendq
+//@ guarded_by clientQs.resultMu: resultq
+//@ guarded_by Client.sendErrMu: sendErr
+//@ guarded_by Client.readErrMu: readErr
+
+//@ fnfield unixTS
+//@ why the clock returns an arbitrary int64
+
+// qsWF: the queues exist and every pending entry is a non-nil operation whose oneof wrapper is non-nil.
+//@ pred oneofOK(x Iface) = tagof(x) != 0 ==> payload(x) != 0
+//@ pred qsWF(c *Client) = c != nil && c.qs != nil && c.qs.pendq != nil && c.qs.pendq.Ops != nil && c.state != nil && unixTS != nil
+//@   && (forall k in dom(c.qs.pendq.Ops) :: c.qs.pendq.Ops[k] != nil ==> c.qs.pendq.Ops[k].Op != nil && oneofOK(c.qs.pendq.Ops[k].Op.Entry)
+//@       && (c.qs.pendq.Ops[k].Op.GetMpls() != nil ==> oneofOK(c.qs.pendq.Ops[k].Op.GetMpls().Label)))
+//@ pred resultqWF(c *Client) = forall i in 0..len(c.qs.resultq) :: c.qs.resultq[i] != nil
+// pendLen: the number of requests still awaiting an answer (operations, election update, session parameters).
+//@ pred pendLen(p *pendingQueue) = ite(p == nil, 0, ite(p.SessionParams != nil, 1, 0) + ite(p.Election != nil, 1, 0) + len(p.Ops))
+//@ pred fibMode(c *Client) = c.state.SessParams.GetAckType() == spb.SessionParameters_RIB_AND_FIB_ACK
+
+//@ unit pendingQueue.Len
+//@ ensures result0 == pendLen(p)
+//@ assigns nothing
+//@ props C13
+
+//@ unit Client.addPendingOp
+//@ requires qsWF(c) && op != nil && oneofOK(op.Entry) && (op.GetMpls() != nil ==> oneofOK(op.GetMpls().Label))
+//@ ensures[duplicate] old(c.qs.pendq.Ops[op.Id]) != nil ==> result0 != nil && dom(c.qs.pendq.Ops) == old(dom(c.qs.pendq.Ops)) && c.qs.pendq.Ops[op.Id] == old(c.qs.pendq.Ops[op.Id])
+//@ ensures[added] old(c.qs.pendq.Ops[op.Id]) == nil ==> result0 == nil && op.Id in dom(c.qs.pendq.Ops) && fresh(c.qs.pendq.Ops[op.Id]) && c.qs.pendq.Ops[op.Id].Op == op
+//@ ensures[wf] qsWF(c)
+//@ assigns c.qs.pendq.Ops[op.Id]
+//@ props C13 C11:lock
+
+// terminalFor: the status completes the operation in the client's acknowledgement mode.
+//@ pred terminalFor(c *Client, st Int) = st == spb.AFTResult_FAILED || st == spb.AFTResult_FIB_PROGRAMMED || st == spb.AFTResult_FIB_FAILED
+//@   || (st == spb.AFTResult_RIB_PROGRAMMED && (TreatRIBACKAsCompletedInFIBACKMode || !fibMode(c)))
+
+//@ unit Client.clearPendingOp
+//@ requires qsWF(c) && op != nil
+//@ ensures[logic-error] TreatRIBACKAsCompletedInFIBACKMode && !fibMode(c) ==> result1 != nil && result0 == nil && dom(c.qs.pendq.Ops) == old(dom(c.qs.pendq.Ops))
+//@ ensures[removed-iff-terminal] !(TreatRIBACKAsCompletedInFIBACKMode && !fibMode(c)) && op.Id in old(dom(c.qs.pendq.Ops))
+//@   ==> ((op.Id in dom(c.qs.pendq.Ops)) <==> !terminalFor(c, op.GetStatus()))
+//@ ensures[rib-ack-alone-not-complete] fibMode(c) && !TreatRIBACKAsCompletedInFIBACKMode && op.GetStatus() == spb.AFTResult_RIB_PROGRAMMED && op.Id in old(dom(c.qs.pendq.Ops))
+//@   ==> op.Id in dom(c.qs.pendq.Ops)
+//@ ensures[unknown-id] !(op.Id in old(dom(c.qs.pendq.Ops))) ==> dom(c.qs.pendq.Ops) == old(dom(c.qs.pendq.Ops))
+//@   && (result1 != nil || op.GetStatus() == spb.AFTResult_FIB_PROGRAMMED || op.GetStatus() == spb.AFTResult_RIB_PROGRAMMED)
+//@ ensures[others-untouched] forall k: uint64 :: k != op.Id ==> ((k in dom(c.qs.pendq.Ops)) <==> (k in old(dom(c.qs.pendq.Ops)))) && c.qs.pendq.Ops[k] == old(c.qs.pendq.Ops[k])
+//@ ensures[result] result1 == nil && result0 != nil ==> fresh(result0) && result0.OperationID == op.GetId() && result0.ProgrammingResult == op.GetStatus()
+//@ ensures[details] result1 == nil && result0 != nil && op.Id in old(dom(c.qs.pendq.Ops)) ==> result0.Details != nil
+//@   && (istype(old(c.qs.pendq.Ops[op.Id]).Op.Entry, *spb.AFTOperation_Ipv4) ==> result0.Details.IPv4Prefix == old(c.qs.pendq.Ops[op.Id]).Op.GetIpv4().GetPrefix())
+//@   && (istype(old(c.qs.pendq.Ops[op.Id]).Op.Entry, *spb.AFTOperation_NextHopGroup) ==> result0.Details.NextHopGroupID == old(c.qs.pendq.Ops[op.Id]).Op.GetNextHopGroup().GetId())
+//@   && (istype(old(c.qs.pendq.Ops[op.Id]).Op.Entry, *spb.AFTOperation_NextHop) ==> result0.Details.NextHopIndex == old(c.qs.pendq.Ops[op.Id]).Op.GetNextHop().GetIndex())
+//@ ensures[error-or-result] result1 != nil ==> result0 == nil
+//@ ensures[wf] qsWF(c)
+//@ assigns c.qs.pendq.Ops[op.Id]
+//@ props C13 C11:lock
+
+//@ unit Client.updatePendingElection
+//@ requires qsWF(c)
+//@ ensures c.qs.pendq.Election != nil && fresh(c.qs.pendq.Election) && c.qs.pendq.Election.ID == id
+//@ assigns c.qs.pendq.Election
+//@ props C13 C11:lock
+
+//@ unit Client.clearPendingElection
+//@ requires qsWF(c)
+//@ ensures c.qs.pendq.Election == nil && result0 != nil && fresh(result0) && (result0.ClientError != "" <==> old(c.qs.pendq.Election) == nil)
+//@ assigns c.qs.pendq.Election
+//@ props C13 C11:lock
+
+//@ unit Client.pendingSessionParams
+//@ requires qsWF(c)
+//@ ensures c.qs.pendq.SessionParams != nil && fresh(c.qs.pendq.SessionParams) && c.qs.pendq.SessionParams.Outgoing == out
+//@ assigns c.qs.pendq.SessionParams
+//@ props C13 C11:lock
+
+//@ unit Client.clearPendingSessionParams
+//@ requires qsWF(c)
+//@ ensures c.qs.pendq.SessionParams == nil && result0 != nil && fresh(result0) && (result0.ClientError != "" <==> old(c.qs.pendq.SessionParams) == nil)
+//@ assigns c.qs.pendq.SessionParams
+//@ props C13 C11:lock
+
+//@ unit Client.isConverged
+//@ requires c != nil && c.qs != nil
+//@ ensures result0 <==> len(c.qs.sendq) == 0 && pendLen(c.qs.pendq) == 0
+//@ assigns nothing
+//@ props C13 C11:lock
+
+//@ unit Client.hasErrors
+//@ requires c != nil
+//@ ensures[any] len(c.readErr) != 0 || len(c.sendErr) != 0 ==> result0 == c.sendErr && result1 == c.readErr
+//@ ensures[none] len(c.readErr) == 0 && len(c.sendErr) == 0 ==> len(result0) == 0 && len(result1) == 0
+//@ assigns nothing
+//@ props C13 C11:lock
+
+//@ unit Client.addReadErr
+//@ requires c != nil
+//@ ensures len(c.readErr) == old(len(c.readErr)) + 1 && c.readErr[old(len(c.readErr))] == err
+//@ assigns c.readErr
+//@ props C13 C11:lock
+
+//@ unit Client.addSendErr
+//@ requires c != nil
+//@ ensures len(c.sendErr) == old(len(c.sendErr)) + 1 && c.sendErr[old(len(c.sendErr))] == err
+//@ assigns c.sendErr
+//@ props C13 C11:lock
